@@ -245,3 +245,64 @@ func blockEdgesInto(fn *ssa.Function, in ssa.Instruction) map[core.Edge]bool {
 	}
 	return out
 }
+
+// frozenKeyLayouts: the on-disk layout of every store key as confirmed on the pinned tree (canonical terms of the key
+// builders: P<i> = i-th parameter). State written under one layout is not found under another: a changed layout needs
+// a store migration, and this table changed with it.
+var frozenKeyLayouts = map[string]string{
+	"x/filetree/types.FilesKey":              `concat(nil,P0,"/",P1,"/")`,
+	"x/filetree/types.PubkeyKey":             `concat(nil,P0,"/")`,
+	"x/jklmint/types.MintedBlockKey":         `concat("minted_at_",dec(P0))`,
+	"x/notifications/types.BlockKey":         `concat(P0,"/",P1)`,
+	"x/notifications/types.NotificationsKey": `concat(P0,"/",P1,"/",dec(P2))`,
+	"x/oracle/types.FeedKey":                 `concat(nil,P0,"/")`,
+	"x/rns/types.BidsKey":                    `concat(nil,P0,"/")`,
+	"x/rns/types.ForsaleKey":                 `concat(nil,P0,"/")`,
+	"x/rns/types.InitKey":                    `concat(nil,P0,"/")`,
+	"x/rns/types.NamesKey":                   `concat(nil,P0,".",P1,"/")`,
+	"x/rns/types.PrimaryNameKey":             `concat(nil,P0,"/")`,
+	"x/rns/types.WhoisKey":                   `concat(nil,P0,"/")`,
+	"x/storage/types.ActiveProvidersKey":     `concat(nil,P0,"/")`,
+	"x/storage/types.AttestationKey":         `concat(P0,"/",hex(P1),"/",P2,"/",dec(P3))`,
+	"x/storage/types.ClientUsageKey":         `concat(nil,P0,"/")`,
+	"x/storage/types.CollateralKey":          `concat(nil,P0,"/")`,
+	"x/storage/types.FilesPrimaryKey":        `concat(hex(P0),"/",P1,"/",dec(P2),"/")`,
+	"x/storage/types.FilesSecondaryKey":      `concat(P1,"/",hex(P0),"/",dec(P2),"/")`,
+	"x/storage/types.LegacyActiveDealsKey":   `concat(nil,P0,"/")`,
+	"x/storage/types.PayBlocksKey":           `concat(nil,P0,"/")`,
+	"x/storage/types.PaymentGaugeKey":        `concat(nil,P0,"/")`,
+	"x/storage/types.ProofKey":               `concat(P0,"/",P2,"/",hex(P1),"/",dec(P3),"/")`,
+	"x/storage/types.ProvidersKey":           `concat(nil,P0,"/")`,
+	"x/storage/types.ReportKey":              `concat(P0,"/",hex(P1),"/",P2,"/",dec(P3))`,
+	"x/storage/types.StoragePaymentInfoKey":  `concat(nil,P0,"/")`,
+}
+
+// keyLayoutFrozen: the key builders of the module still produce the recorded layout. Builders whose term is not
+// available (built imperatively) are not compared.
+func keyLayoutFrozen(r *core.Run, rule, module string) int {
+	p := r.Prog
+	n := 0
+	for _, fn := range moduleFuncs(p, module) {
+		want, ok := frozenKeyLayouts[core.FnName(fn)]
+		if !ok || fn.Blocks == nil {
+			continue
+		}
+		for _, b := range fn.Blocks {
+			ret, isRet := b.Instrs[len(b.Instrs)-1].(*ssa.Return)
+			if !isRet || len(ret.Results) != 1 {
+				continue
+			}
+			term := core.NewTermBuilder(p).Term(ret.Results[0])
+			if strings.Contains(term, "φ") || strings.Contains(term, "⊤") || strings.Contains(term, "alloc") {
+				continue
+			}
+			n++
+			norm := func(t string) string {
+				return strings.ReplaceAll(strings.ReplaceAll(t, "concat(nil,", "concat("), `"",`, "")
+			}
+			r.Check(norm(term) == norm(want), rule, core.FnName(fn)+":key-layout", p.Pos(fn.Pos()), "key = "+term,
+				"the store key layout changed from "+want+" to "+term+": records written under the old layout are no longer found (a provider registered before the change is removed without its collateral, a file is not found under its owner, ...) unless a store migration rewrites them — none is recognised here; if the change is intended, migrate and update the recorded layout")
+		}
+	}
+	return n
+}
